@@ -6,6 +6,7 @@ import (
 	"bytes"
 	"encoding/json"
 	"fmt"
+	"github.com/trustbloc/sidetree-go/pkg/versions/1_0/model"
 	"os"
 	"sort"
 	"strings"
@@ -394,6 +395,57 @@ func selfcertReplay(args []string) {
 			fail("did-relation", "", map[string]interface{}{"same_did": c.Expected.SameDID}, map[string]interface{}{"base": gb, "changed": gm})
 		case gm.Accepted && gm.Suffix != refModelHash(msd, sfxAlg):
 			fail("suffix", "suffix of the changed request", map[string]interface{}{"suffix": refModelHash(msd, sfxAlg)}, gm)
+		}
+
+		// the anchored form of a request is the same request: it denotes the same DID - also when the request carries, in its
+		// suffix data, members that do not survive into the anchored form (null, empty, unknown, other letter case)
+		if c.Mod == "none" && gb.Accepted {
+			variants := map[string]map[string]interface{}{"as it is": sd}
+
+			with := func(label, name string, v interface{}, drop string) {
+				m := map[string]interface{}{}
+				for k2, v2 := range sd {
+					if k2 != drop {
+						m[k2] = v2
+					}
+				}
+
+				m[name] = v
+				variants[label] = m
+			}
+
+			if _, has := sd["anchorOrigin"]; !has {
+				with("anchorOrigin null", "anchorOrigin", nil, "")
+			}
+
+			if _, has := sd["type"]; !has {
+				with("type empty", "type", "", "")
+			}
+
+			with("unknown member", "x-unknown", map[string]interface{}{"a": 1}, "")
+			with("member name in another letter case", "RecoveryCommitment", sd["recoveryCommitment"], "recoveryCommitment")
+
+			for label, vsd := range variants {
+				vb := encodeStyled(generic(map[string]interface{}{"type": "create", "suffixData": vsd, "delta": delta}), "none")
+
+				op1, e1 := parser.ParseOperation("did:sidetree", vb, false)
+				if e1 != nil {
+					continue // (whether such a request is accepted is C07's subject)
+				}
+
+				anch, e2 := model.GetAnchoredOperation(op1)
+				if e2 != nil {
+					fail("anchored-form", label+": "+e2.Error(), nil, nil)
+					break
+				}
+
+				op2, e3 := parser.ParseOperation("did:sidetree", anch.OperationRequest, true)
+				if e3 != nil || op2.UniqueSuffix != op1.UniqueSuffix || anch.UniqueSuffix != op1.UniqueSuffix || op2.ID != op1.ID {
+					fail("anchored-form", "suffix data with "+label+": the request and its anchored form denote different DIDs ("+fmt.Sprint(e3)+")",
+						map[string]interface{}{"suffix": op1.UniqueSuffix}, map[string]interface{}{"anchored": anch.UniqueSuffix, "reparsed": fmt.Sprint(op2)})
+					break
+				}
+			}
 		}
 	})
 
